@@ -34,7 +34,7 @@ CHECKS = {
     "C08": dict(
         cat="exploration", ref="4 C08",
         technique="model-based stateful property testing (generated update/query histories vs a set model + brute-force semantics)",
-        text="Generated histories (5-80 / up to 200 steps, <=7 live arguments out of 10 labels, re-added labels, query bursts) over 11 dynamic solver configurations incl. 7 reservation factors; after every query and in a final sweep, status and certificate must be those of the model's current framework by brute force; Err or panic on a valid step is a failure. The whole history shrinks as one value. One case in three uses labels whose Hash is much coarser than their Eq, one in three a SAT backend returning chosen models; a quarter of the histories run over 2-5 label groups (up to 35 live arguments, exact by composition) and contain bursts that push ids and SAT variables into the hundreds.",
+        text="Generated histories (5-80 / up to 200 steps, <=7 live arguments out of 10 labels, re-added labels, query bursts) over 11 dynamic solver configurations incl. 7 reservation factors; after every query and in a final sweep, status and certificate must be those of the model's current framework by brute force; Err or panic on a valid step is a failure. The whole history shrinks as one value. One case in three uses labels whose Hash is much coarser than their Eq, one in three a SAT backend returning chosen models; a quarter of the histories run over 2-5 label groups (up to 35 live arguments, exact by composition) and contain bursts that push ids and SAT variables into the hundreds. The fixed case list has, per incremental solver kind, one history of 1400 create-and-remove bursts (67 200 argument ids on one solver object) followed by repeated certificate queries.",
         note="trusted: oracle.rs, the set model; <=7 live arguments; single-argument supported query kinds only"),
     "C09": dict(
         cat="exploration", ref="4 C09",
@@ -49,12 +49,12 @@ CHECKS = {
     "C16": dict(
         cat="exploration", ref="4 C16",
         technique="property-based testing through a harness-owned external solver process (strict DIMACS validator, generated reply volume / I/O order / reply grammar) with a reference reply parser",
-        text="Argumentation queries through ExternalSatSolver(fake_sat): every DIMACS text validated strictly inside the child; reply volume 20 B-1 MiB via comment padding, v-line widths, read-first/write-first/interleaved I/O, CRLF; models above 64 KiB via 8k-30k argument chains; generated well- and ill-formed replies replayed verbatim and compared with an independent reply parser (Sat(model)/Unsat/Invalid/Unspecified). 20 s per-call watchdog consulting the child's progress log: a blocked write of >64 KiB is a violation, any other expiry is inconclusive. The solver also prints 0-260 KiB of diagnostics on stderr before reading, before or after its reply.",
+        text="Argumentation queries through ExternalSatSolver(fake_sat): every DIMACS text validated strictly inside the child; reply volume 20 B-1 MiB via comment padding, v-line widths, read-first/write-first/interleaved I/O, CRLF; models above 64 KiB via 8k-30k argument chains; generated well- and ill-formed replies replayed verbatim and compared with an independent reply parser (Sat(model)/Unsat/Invalid/Unspecified). 20 s per-call watchdog consulting the child's progress log: a blocked write of >64 KiB is a violation, any other expiry is inconclusive. The solver also prints 0-260 KiB of diagnostics on stderr before reading, before or after its reply. NearPipe cases: instances within 4 KB of the 64 KiB pipe capacity under 0-700 assumptions with up to 200 KB of early solver output; nine malformed-token shapes and tokens after the terminating 0 in the reply grammar.",
         note="trusted: fake_sat validator, reference reply parser; kernel scheduling not enumerated (the harness owns the child's side of the interleaving only)"),
     "C17": dict(
         cat="fault_enumeration", ref="4 C17",
         technique="fault injection enumerated over every SAT-call position of generated queries and dynamic histories (library wrapper, external process, command line)",
-        text="For each generated problem / dynamic history the clean run is validated against the reference semantics and its k SAT calls counted; the query is then re-run for every position 1..k with the backend failing there: Unknown through a SatSolver wrapper, and {silent exit, non-zero exit, status without model, truncated model/status, stray line, s UNKNOWN, abort} through the harness-owned external solver, via ExternalSatSolver and via `crustabri solve --external-sat-solver`. Any returned status/extension/certificate, exit status 0 or answer line on stdout is a violation. All positions are enumerated per generated case; the cases themselves are sampled. Garbled lines come as ASCII, binary, a reply cut inside a multi-byte character, and Latin-1; a solver that cannot be started at all is one more kind.",
+        text="For each generated problem / dynamic history the clean run is validated against the reference semantics and its k SAT calls counted; the query is then re-run for every position 1..k with the backend failing there: Unknown through a SatSolver wrapper, and {silent exit, non-zero exit, status without model, truncated model/status, stray line, s UNKNOWN, abort} through the harness-owned external solver, via ExternalSatSolver and via `crustabri solve --external-sat-solver`. Any returned status/extension/certificate, exit status 0 or answer line on stdout is a violation. All positions are enumerated per generated case; the cases themselves are sampled. Garbled lines come as ASCII, binary, a reply cut inside a multi-byte character, and Latin-1; a solver that cannot be started at all is one more kind. Unknown is also injected at every call position of list queries (1-3 arguments over several components) on every static solver type.",
         note="trusted: wrappers, fake_sat; positions exhaustive per case, cases generated (<=8 arguments, histories <=40/80 steps)"),
     "C10": dict(
         cat="translation_validation", ref="4 C10",
@@ -64,7 +64,7 @@ CHECKS = {
     "C12": dict(
         cat="exploration", ref="4 C12",
         technique="model-based stateful property testing (update histories vs a set model) + exhaustive enumeration of short histories",
-        text="Generated histories of up to 200/600 operations over 4-8 labels (usize and String) with arbitrary operands, full observable-state comparison with a set model after every step, Result vs precondition, id uniqueness/stability/no reuse; plus every 4-step (quick) / 5-step (thorough) history over two labels. 20% of the histories run over 20-120 labels with hub bias (long adjacency lists, ids in the hundreds). A quarter of the histories use a label type whose Hash is coarser than its Eq (colliding labels).",
+        text="Generated histories of up to 200/600 operations over 4-8 labels (usize and String) with arbitrary operands, full observable-state comparison with a set model after every step, Result vs precondition, id uniqueness/stability/no reuse; plus every 4-step (quick) / 5-step (thorough) history over two labels. 20% of the histories run over 20-120 labels with hub bias (long adjacency lists, ids in the hundreds). A quarter of the histories use a label type whose Hash is coarser than its Eq (colliding labels). The fixed case list has one framework object living through 44 000 rounds of churn (2^16 removed attacks); some histories start with hubs of 30-119 attackers or a thousand stale adjacency entries.",
         note="trusted: the set model"),
     "C14": dict(
         cat="exploration", ref="4 C14",
@@ -74,7 +74,7 @@ CHECKS = {
     "C18": dict(
         cat="exploration", ref="4 C18",
         technique="property-based testing with a counting/recording SAT wrapper whose cap is the stated bound (liveness reduced to a safety bound)",
-        text="Generated problems on frameworks of <=9/11 arguments (70% connected) run with a SAT factory that aborts at bound+1 calls, the bound being computed per component from brute-force counts exactly as the property states; recorded models on one instance must be pairwise distinct (PR) / at most twice (ID) when projected on the argument variables; DS queries of generated dynamic-preferred histories bounded by |CO|+|PR|+1. Scripts of queries on ONE solver object get a bound per query. A preferred search on a connected framework may make at most |candidates|-1 satisfiable calls per solver instance. One case in three runs under a backend returning chosen models (the bounds are stated in candidate sets).",
+        text="Generated problems on frameworks of <=9/11 arguments (70% connected) run with a SAT factory that aborts at bound+1 calls, the bound being computed per component from brute-force counts exactly as the property states; recorded models on one instance must be pairwise distinct (PR) / at most twice (ID) when projected on the argument variables; DS queries of generated dynamic-preferred histories bounded by |CO|+|PR|+1. Scripts of queries on ONE solver object get a bound per query. A preferred search on a connected framework may make at most |candidates|-1 satisfiable calls per solver instance. One case in three runs under a backend returning chosen models (the bounds are stated in candidate sets). List queries on the complete and stable solvers: at most two calls per SAT solver instance.",
         note="trusted: oracle.rs counts; termination of individual CaDiCaL calls assumed"),
     "C19": dict(
         cat="exploration", ref="4 C19",
@@ -84,7 +84,7 @@ CHECKS = {
     "C05": dict(
         cat="exploration", ref="4 C05",
         technique="property-based testing of the two binaries built from /repo's working tree: generated instance files and argv, answer-grammar parser + brute-force reference; generated bad invocations",
-        text="~3200 (quick) / 60000 (thorough) process invocations: generated files in both formats x 21 problems in random letter case x argument x reader/encoding/certificate/logging-level/external-solver options for `crustabri solve` and -f/-p/-a for `crustabri_iccma23`; stdout minus logger lines must be exactly the answer grammar and the answer right by the reference; 14 kinds of bad invocation must exit non-zero without an answer line; the problems listing must be exactly the 21 problems. Instances are padded with up to 5200 isolated arguments, every path and external-solver option value contains whitespace, identifiers of 200-700 characters occur.",
+        text="~3200 (quick) / 60000 (thorough) process invocations: generated files in both formats x 21 problems in random letter case x argument x reader/encoding/certificate/logging-level/external-solver options for `crustabri solve` and -f/-p/-a for `crustabri_iccma23`; stdout minus logger lines must be exactly the answer grammar and the answer right by the reference; 14 kinds of bad invocation must exit non-zero without an answer line; the problems listing must be exactly the 21 problems. Instances are padded with up to 5200 isolated arguments, every path and external-solver option value contains whitespace, identifiers of 200-700 characters occur. Instances also come through named pipes, with a Latin-1 comment line, with options spelt -a3 / -a=3, with the solver named by its bare name from a working directory containing a same-named entry.",
         note="trusted: oracle.rs, the answer-grammar parser, refparse.rs for ill-formed files; <=7 arguments"),
     "C06": dict(
         cat="exploration", ref="4 C06",
@@ -94,7 +94,7 @@ CHECKS = {
     "C13": dict(
         cat="exploration", ref="4 C13",
         technique="grammar-based + mutation-based generation of byte strings, differential against tri-state reference parsers; libFuzzer target with the same oracle in the thorough tier",
-        text="Millions of byte strings per run for both readers: grammar-based well-formed files with all format-defined decorations, targeted corruptions of each listed ill-formedness class, byte-level mutations, token soup, raw bytes (invalid UTF-8, NUL). No panic; Accept => exactly the declared labels in order and attack set; Reject => Err; Unspecified => Err or the natural reading; read_arg_from_str in and out of range. Line-lengthening mutations reach 2^16 units one time in 1009; one file in 3000 is a large ICCMA'23 file (up to 100000 arguments).",
+        text="Millions of byte strings per run for both readers: grammar-based well-formed files with all format-defined decorations, targeted corruptions of each listed ill-formedness class, byte-level mutations, token soup, raw bytes (invalid UTF-8, NUL). No panic; Accept => exactly the declared labels in order and attack set; Reject => Err; Unspecified => Err or the natural reading; read_arg_from_str in and out of range. Line-lengthening mutations reach 2^16 units one time in 1009; one file in 3000 is a large ICCMA'23 file (up to 100000 arguments). Invalid UTF-8: the reader may refuse, or must return the framework of the text with the offending bytes replaced. One streamed well-formed input above 2^32 bytes per format (Aspartix: thorough only); indices at the bounds of the machine integers; reader objects reused after failed reads.",
         note="trusted: refparse.rs and its list of unspecified inputs (DESIGN.md 3.5); declared sizes >10^5 excluded and counted"),
     "C11": dict(
         cat="exploration", ref="4 C11",
